@@ -1652,6 +1652,161 @@ theorem returned_action_valid (t : Tree) (H : Nat) (hA : 0 < t.nA []) :
 
 /-! ### rPOMCP (max-of-belief): horizon and counts -/
 
+/-! ### The statements at full strength for the source as it is now
+
+  `tools/extract_c19.py` regenerates `Gen.C19` from the headers on every run; `source_rollout_repaired` is re-checked
+  against it (a regression of the rollout length or of POMCP's guard breaks this proof obligation). -/
+
+/-- the rollout length read from MCTS.hpp / POMCP.hpp is at most `maxDepth_ - depth - 1`, and POMCP's rollout is guarded -/
+theorem source_rollout_repaired :
+    Gen.C19.mctsRollOff ≤ -1 ∧ Gen.C19.pomcpRollOff ≤ -1 ∧ Gen.C19.pomcpRollGuard = true := by decide
+
+/-- `m` carries the facts read from the source -/
+def AsSource (m : Mdl) : Prop :=
+  m.rollOff = (if m.pomcp then Gen.C19.pomcpRollOff else Gen.C19.mctsRollOff) ∧
+  (m.pomcp = true → m.rollGuard = Gen.C19.pomcpRollGuard)
+
+theorem AsSource.off {m : Mdl} (h : AsSource m) : m.rollOff ≤ -1 := by
+  obtain ⟨h1, h2, _⟩ := source_rollout_repaired
+  rw [h.1]; split <;> assumption
+
+/-- **depth_le_horizon, for MCTS and POMCP as they are in the source now**: every simulation of every public call, in
+    every history, is a chain of at most `horizon` calls of the generative model. -/
+theorem depth_le_horizon_current {m : Mdl} (hm : AsSource m) {t t' : Tree} {op : Op} {log rest : List Step} (h : Reach m t)
+    (hc : call m t op log = some (t', rest)) (hH : 0 < op.H) :
+    ∃ useds : List (List Step), log = useds.flatten ++ rest ∧ useds.length = op.iters ∧ ∀ u ∈ useds, u.length ≤ op.H :=
+  depth_le_horizon hm.off h hc hH
+
+/-- **v_in_return_range, as in the property, for the source now** (fresh call with horizon `H`) -/
+theorem v_in_return_range_fresh_current {m : Mdl} {rmin rmax : Rat} (hb : Bnd m rmin rmax) (hm : AsSource m) {t t' : Tree}
+    {parts : List Nat} {nA H iters : Nat} {log rest : List Step} (h : Reach m t) (hH : 0 < H)
+    (hc : call m t (Op.fresh parts nA H iters) log = some (t', rest)) (q : Path) (a : Nat) (hN : 0 < t'.aN q a) :
+    loR m.gamma rmin (H - q.length) ≤ t'.aV q a ∧ t'.aV q a ≤ hiR m.gamma rmax (H - q.length) :=
+  v_in_return_range_fresh hb hm.off h hH hc q a hN
+
+/-- **v_in_return_range for any history with horizons ≤ h, for the source now**: range of `h - depth` steps -/
+theorem v_in_return_range_history_current {m : Mdl} {rmin rmax : Rat} (hb : Bnd m rmin rmax) (hm : AsSource m) {h : Nat}
+    {t : Tree} (hr : ReachH m h t) (q : Path) (a : Nat) (hN : 0 < t.aN q a) :
+    loR m.gamma rmin (h - q.length) ≤ t.aV q a ∧ t.aV q a ≤ hiR m.gamma rmax (h - q.length) := by
+  have := v_in_return_range_history hb hr q a hN
+  have h0 : m.overrun = 0 := by have := hm.off; unfold Mdl.overrun; omega
+  rw [h0] at this
+  simpa using this
+
+/-- **no simulation past a terminal state, for the source now** (MCTS and POMCP) -/
+theorem no_simulation_past_terminal_current {m : Mdl} (hm : AsSource m) {H : Nat} {t t' : Tree} {p : Path} {s depth : Nat}
+    {used : List Step} {r : Rat} (h : Sim m H t p s depth used t' r) : NoCont used :=
+  no_simulation_past_terminal_as_extracted hm.2 (fun _ => source_rollout_repaired.2.2) h
+
+/-! ### The action selection of `simulate` (`findBestBonusA`) -/
+
+theorem XRat.lt_trans' : ∀ {a b c : XRat}, XRat.lt a b = true → XRat.lt b c = true → XRat.lt a c = true := by
+  intro a b c h1 h2
+  cases a <;> cases b <;> cases c <;> simp_all [XRat.lt]
+  exact lt_trans h1 h2
+
+theorem firstBestX_lt (sc : Nat → XRat) : ∀ n, 0 < n → firstBestX sc n < n := by
+  intro n
+  induction n with
+  | zero => intro h; omega
+  | succ n ih =>
+    intro _
+    simp only [firstBestX]
+    split
+    · omega
+    · by_cases hn : n = 0
+      · subst hn; simp [firstBestX]
+      · have := ih (by omega); omega
+
+/-- **the scan ends on an action whose score no other score beats** (IEEE `>`; with finite scores: a maximiser) -/
+theorem firstBestX_best (sc : Nat → XRat) : ∀ n b, b < n → XRat.gt (sc b) (sc (firstBestX sc n)) = false := by
+  intro n
+  induction n with
+  | zero => intro b h; omega
+  | succ n ih =>
+    intro b hb
+    simp only [firstBestX]
+    by_cases hbn : b = n
+    · subst hbn
+      split
+      · cases hx : sc b <;> simp [XRat.gt, XRat.lt]
+      · rename_i h; simpa using h
+    · have hb' := ih b (by omega)
+      split
+      · rename_i hgt
+        -- sc n > sc old, and not (sc b > sc old): then not (sc b > sc n)
+        cases hr : XRat.gt (sc b) (sc n) with
+        | false => rfl
+        | true =>
+          exfalso
+          have h1 : XRat.lt (sc (firstBestX sc n)) (sc n) = true := hgt
+          have h2 : XRat.lt (sc n) (sc b) = true := hr
+          have := XRat.lt_trans' h1 h2
+          have h3 : XRat.gt (sc b) (sc (firstBestX sc n)) = true := this
+          rw [hb'] at h3; simp at h3
+      · exact hb'
+
+/-- exploration constant > 0: an untried action scores `+inf`, a tried one a finite value; then the scan takes the first
+    untried action as long as there is one (this was an assumption of the model in round 1; now a consequence) -/
+theorem firstBestX_untried (sc : Nat → XRat) (un : Nat → Bool)
+    (h1 : ∀ b, un b = true → sc b = .pinf) (h2 : ∀ b, un b = false → ∃ q, sc b = .fin q) :
+    ∀ n u, u < n → un u = true → (∀ b, b < u → un b = false) → firstBestX sc n = u := by
+  intro n
+  induction n with
+  | zero => intro u h; omega
+  | succ n ih =>
+    intro u hu hun hfirst
+    simp only [firstBestX]
+    by_cases hun' : u = n
+    · subst hun'
+      by_cases hn0 : u = 0
+      · subst hn0; simp [firstBestX, h1 0 hun, XRat.gt, XRat.lt]
+      · have hlt := firstBestX_lt sc u (by omega)
+        obtain ⟨q, hq⟩ := h2 _ (hfirst _ hlt)
+        simp [h1 u hun, hq, XRat.gt, XRat.lt]
+    · have := ih u (by omega) hun hfirst
+      rw [this, h1 u hun]
+      cases hx : sc n <;> simp [XRat.gt, XRat.lt]
+
+/-- exploration constant 0: an untried action scores `NaN`; if action 0 is untried the scan never leaves it -/
+theorem firstBestX_nan0 (sc : Nat → XRat) (h0 : sc 0 = .nan) : ∀ n, firstBestX sc n = 0 := by
+  intro n
+  induction n with
+  | zero => rfl
+  | succ n ih =>
+    simp only [firstBestX, ih, h0]
+    cases hx : sc n <;> simp [XRat.gt, XRat.lt]
+
+/-- **the action chosen in `simulate` is the one the `findBestBonusA` scan selects on the modelled scores
+    `V(b) + bonus(N+1, N(b))`, and no action has a greater score** (strict rule, `uctSlack = none`) -/
+theorem simulate_choice_is_uct {m : Mdl} {H fuel : Nat} {t t' : Tree} {p : Path} {s depth : Nat} {st : Step}
+    {log rest : List Step} {r : Rat} (hs : m.uctSlack = none)
+    (h : simulate m H (fuel + 1) t p s depth (st :: log) = some (t', r, rest)) :
+    st.a = uctPick m (t.nN p + 1) (t.nA p) (t.aN p) (t.aV p) ∧ st.a < t.nA p ∧
+    ∀ b, b < t.nA p → XRat.gt (uctScore m (t.nN p + 1) (t.aN p) (t.aV p) b) (uctScore m (t.nN p + 1) (t.aN p) (t.aV p) st.a) = false := by
+  simp only [simulate] at h
+  split at h
+  · rename_i hc
+    simp only [Bool.and_eq_true, decide_eq_true_eq] at hc
+    obtain ⟨⟨⟨_, ha⟩, _⟩, hu⟩ := hc
+    have hpick : st.a = uctPick m (t.nN p + 1) (t.nA p) (t.aN p) (t.aV p) := by
+      simpa [uctOk, uctOkGen, hs] using hu
+    refine ⟨hpick, ha, fun b hb => ?_⟩
+    rw [hpick]
+    exact firstBestX_best _ _ b hb
+  · simp at h
+
+/-- the real-arithmetic shape of the bonus, with `log`/`sqrt` abstract: for any monotone `sqrtF` and `L ≥ 0`, `c ≥ 0`, the
+    bonus `c · sqrtF (L / n)` does not increase with the action's visit count — among equally valued actions the scan
+    prefers the less visited one -/
+theorem bonus_antitone (sqrtF : Rat → Rat) (hmono : ∀ x y, x ≤ y → sqrtF x ≤ sqrtF y) (c L : Rat) (hc : 0 ≤ c) (hL : 0 ≤ L)
+    (n n' : Nat) (hn : 0 < n) (hnn : n ≤ n') : c * sqrtF (L / (n' : Rat)) ≤ c * sqrtF (L / (n : Rat)) := by
+  apply mul_le_mul_of_nonneg_left _ hc
+  apply hmono
+  have h1 : (0 : Rat) < (n : Rat) := by exact_mod_cast hn
+  have h2 : (n : Rat) ≤ (n' : Rat) := by exact_mod_cast hnn
+  exact div_le_div_of_nonneg_left hL h1 h2
+
 namespace R
 
 theorem rup_fields (m : Mdl) (k : Nat) (t : RTree) (p : Path) (a depth : Nat) (imm : Rat) :
@@ -1900,6 +2055,258 @@ theorem rcall_fresh_spec (m : Mdl) (k : Nat) (t t' : RTree) (support : List Nat)
       · have := h1.cnt q
         show t1.nN q = sumTo (t1.aN q) (t1.nA q) + t1.stops q
         simpa using this
+
+/-! #### rPOMCP: action values are means of the datapoints passed upwards; the knowledge measure; promotion -/
+
+theorem rup_mean_fields (m : Mdl) (k : Nat) (t : RTree) (p : Path) (a depth : Nat) (imm : Rat) :
+    (rup m k t p a depth imm).1.aN = upd t.aN p (updN (t.aN p) a (t.aN p a + 1)) ∧
+    (rup m k t p a depth imm).1.aV = upd t.aV p (updN (t.aV p) a (t.aV p a + (imm - t.aV p a) / ((t.aN p a + 1 : Nat) : Rat))) ∧
+    (rup m k t p a depth imm).1.dps = upd t.dps p (updN (t.dps p) a (imm :: t.dps p a)) := by
+  unfold rup
+  dsimp only
+  split <;> exact ⟨rfl, rfl, rfl⟩
+
+theorem rdown_mean_fields (m : Mdl) (t : RTree) (p : Path) (st : Step) :
+    (rdown m t p st).1.aN = t.aN ∧ (rdown m t p st).1.aV = t.aV ∧ (rdown m t p st).1.dps = t.dps := by
+  unfold rdown RTree.updBK
+  simp only
+  split <;> exact ⟨rfl, rfl, rfl⟩
+
+theorem ralloc_mean {t t1 : RTree} {p : Path} {n : Nat} (h : t.alloc p n = some t1) :
+    t1.aN = t.aN ∧ t1.aV = t.aV ∧ t1.dps = t.dps := by
+  unfold RTree.alloc at h
+  split at h
+  · simp at h; subst h; exact ⟨rfl, rfl, rfl⟩
+  · split at h
+    · simp at h; subst h; exact ⟨rfl, rfl, rfl⟩
+    · simp at h
+
+/-- every action value is the mean of the datapoints (`dps`) that were averaged into it, its count their number -/
+structure RMean (t : RTree) : Prop where
+  len : ∀ q a, t.aN q a = (t.dps q a).length
+  avg : ∀ q a, t.aV q a = mean (t.dps q a)
+
+theorem RMean.of_eq {t t1 : RTree} (h : RMean t) (e1 : t1.aN = t.aN) (e2 : t1.aV = t.aV) (e3 : t1.dps = t.dps) : RMean t1 :=
+  ⟨fun q a => by rw [e1, e3]; exact h.len q a, fun q a => by rw [e2, e3]; exact h.avg q a⟩
+
+theorem RMean.rup {t : RTree} (h : RMean t) (m : Mdl) (k : Nat) (p : Path) (a depth : Nat) (imm : Rat) :
+    RMean (rup m k t p a depth imm).1 := by
+  obtain ⟨u1, u2, u3⟩ := rup_mean_fields m k t p a depth imm
+  refine ⟨fun q b => ?_, fun q b => ?_⟩
+  · rw [u1, u3]
+    by_cases hq : q = p
+    · subst hq
+      simp only [upd, if_true]
+      by_cases hb : b = a
+      · subst hb; simp [updN, h.len]
+      · simp [updN, hb, h.len]
+    · simp only [upd, hq, if_false]; exact h.len q b
+  · rw [u2, u3]
+    by_cases hq : q = p
+    · subst hq
+      simp only [upd, if_true]
+      by_cases hb : b = a
+      · subst hb
+        simp only [updN, if_true]
+        rw [mean_cons, h.avg q b, h.len q b]
+      · simp only [updN, hb, if_false]; exact h.avg q b
+    · simp only [upd, hq, if_false]; exact h.avg q b
+
+/-- **rPOMCP: every `simulate` call keeps "V(a) = mean of the datapoints sampled through a"** -/
+theorem rsim_mean (m : Mdl) (H k : Nat) : ∀ (fuel : Nat) (t : RTree) (p : Path) (s depth : Nat) (log : List Step)
+    (t' : RTree) (r : Rat) (rest : List Step),
+    rsim m H k fuel t p s depth log = some (t', r, rest) → RMean t → RMean t' := by
+  intro fuel
+  induction fuel with
+  | zero => intro t p s depth log t' r rest h; simp [rsim] at h
+  | succ fuel ih =>
+    intro t p s depth log t' r rest h hI
+    cases log with
+    | nil => simp [rsim] at h
+    | cons st log =>
+      simp only [rsim] at h
+      split at h
+      · obtain ⟨d1, d2, d3⟩ := rdown_mean_fields m t p st
+        have hd : RMean (rdown m t p st).1 := hI.of_eq d1 d2 d3
+        split at h
+        · simp at h
+        · rename_i t3 imm log' hr
+          simp at h
+          obtain ⟨rfl, rfl, rfl⟩ := h
+          split at hr
+          · split at hr
+            · simp at hr
+            · rename_i t2 hal
+              obtain ⟨a1, a2, a3⟩ := ralloc_mean hal
+              exact (ih _ _ _ _ _ _ _ _ hr (hd.of_eq a1 a2 a3)).rup m k p st.a depth imm
+          · simp at hr
+            obtain ⟨rfl, _, rfl⟩ := hr
+            exact (hd.of_eq (t1 := rleaf (rdown m t p st).1 (p ++ [(st.a, st.o)])) rfl rfl rfl).rup m k p st.a depth _
+      · simp at h
+
+theorem rrunSims_mean (m : Mdl) (H k : Nat) : ∀ (n : Nat) (t : RTree) (log : List Step) (t' : RTree) (rest : List Step),
+    rrunSims m H k n t log = some (t', rest) → RMean t → RMean t' := by
+  intro n
+  induction n with
+  | zero => intro t log t' rest h hI; simp [rrunSims] at h; obtain ⟨rfl, _⟩ := h; exact hI
+  | succ n ih =>
+    intro t log t' rest h hI
+    cases log with
+    | nil => simp [rrunSims] at h
+    | cons st log =>
+      simp only [rrunSims] at h
+      split at h
+      · split at h
+        · simp at h
+        · rename_i t1 r log' hsim
+          exact ih _ _ _ _ h (rsim_mean m H k _ _ _ _ _ _ _ _ _ hsim hI)
+      · simp at h
+
+theorem RMean.fresh (support : List Nat) (nA : Nat) : RMean (RTree.fresh support nA) :=
+  ⟨fun _ _ => rfl, fun _ _ => by show (0 : Rat) = mean []; rw [mean_nil]⟩
+
+theorem RMean.reroot {t : RTree} (h : RMean t) (k : Key) : RMean (t.reroot k) :=
+  ⟨fun q a => h.len (k :: q) a, fun q a => h.avg (k :: q) a⟩
+
+/-- trees reachable by any history of public rPOMCP calls -/
+inductive RReach (m : Mdl) (k : Nat) : RTree → Prop
+  | init : RReach m k (RTree.fresh [] 0)
+  | call (t t' : RTree) (op : Op) (log rest : List Step) : RReach m k t → rcall m k t op log = some (t', rest) → RReach m k t'
+
+theorem rprepare_mean {t t0 : RTree} {op : Op} {H iters : Nat} (h : RMean t) (hp : rprepare t op = some (t0, H, iters)) : RMean t0 := by
+  cases op with
+  | fresh parts nA H' iters' =>
+    simp [rprepare] at hp
+    obtain ⟨rfl, _, _⟩ := hp
+    exact RMean.fresh parts nA
+  | adv a o parts nA H' iters' =>
+    simp only [rprepare] at hp
+    split at hp
+    · split at hp
+      · cases hal : (t.reroot (a, o)).alloc [] nA with
+        | none => simp [hal] at hp
+        | some t1 =>
+          simp [hal] at hp
+          obtain ⟨rfl, _, _⟩ := hp
+          obtain ⟨a1, a2, a3⟩ := ralloc_mean hal
+          exact (h.reroot (a, o)).of_eq a1 a2 a3
+      · simp at hp
+        obtain ⟨rfl, _, _⟩ := hp
+        exact RMean.fresh parts nA
+    · simp at hp
+
+/-- **rPOMCP v_is_mean**: after any history of public calls (both knowledge measures), every action value is the mean
+    of exactly the datapoints its simulations passed upwards, and its count is their number -/
+theorem v_is_mean {m : Mdl} {k : Nat} {t : RTree} (h : RReach m k t) (q : Path) (a : Nat) :
+    t.aN q a = (t.dps q a).length ∧ t.aV q a = mean (t.dps q a) := by
+  have hI : RMean t := by
+    induction h with
+    | init => exact RMean.fresh [] 0
+    | call t t' op log rest _ hc ih =>
+      unfold rcall at hc
+      split at hc
+      · simp at hc
+      · rename_i t0 H iters hp
+        have h0 := rprepare_mean ih hp
+        split at hc
+        · simp at hc; obtain ⟨rfl, _⟩ := hc; exact h0
+        · split at hc
+          · simp at hc
+          · rename_i t1 rest' hr
+            simp at hc
+            obtain ⟨rfl, _⟩ := hc
+            exact (rrunSims_mean m H k _ _ _ _ _ hr h0).of_eq rfl rfl rfl
+  exact ⟨hI.len q a, hI.avg q a⟩
+
+theorem max_upd_aux (f : Nat → Nat) (ms s : Nat) (h : ∀ x, f x ≤ f ms) (x : Nat) :
+    updN f s (f s + 1) x ≤ updN f s (f s + 1) (if updN f s (f s + 1) ms < f s + 1 then s else ms) := by
+  have hx := h x
+  have hs := h s
+  simp only [updN]
+  by_cases h1 : ms = s
+  · subst h1
+    by_cases h2 : x = ms
+    · subst h2; simp
+    · simp [h2]; omega
+  · by_cases h3 : f ms < f s + 1
+    · simp only [h1, if_false, h3, if_true]
+      by_cases h2 : x = s
+      · simp [h2]
+      · simp [h2]; omega
+    · simp only [h1, if_false, h3]
+      by_cases h2 : x = s
+      · simp [h2]; omega
+      · simp [h2]; omega
+
+/-- **knowledge-measure update, max-of-belief**: `updateBeliefAndKnowledge(s)` counts the particle, keeps `maxS_` a most
+    frequent particle type and sets the measure to `count(maxS_) / (N + 1)` -/
+theorem updBK_max_spec (m : Mdl) (hm : m.entropy = false) (t : RTree) (p : Path) (s : Nat)
+    (hinv : ∀ x, t.tb p x ≤ t.tb p (t.maxS p)) :
+    (t.updBK m p s).tb p = updN (t.tb p) s (t.tb p s + 1) ∧
+    (∀ x, (t.updBK m p s).tb p x ≤ (t.updBK m p s).tb p ((t.updBK m p s).maxS p)) ∧
+    (t.updBK m p s).km p = (((t.updBK m p s).tb p ((t.updBK m p s).maxS p) : Nat) : Rat) / ((t.nN p + 1 : Nat) : Rat) ∧
+    (∀ q, q ≠ p → (t.updBK m p s).tb q = t.tb q ∧ (t.updBK m p s).km q = t.km q) := by
+  have e1 : (t.updBK m p s).tb p = updN (t.tb p) s (t.tb p s + 1) := by simp [RTree.updBK, upd]
+  have e2 : (t.updBK m p s).maxS p
+      = if updN (t.tb p) s (t.tb p s + 1) (t.maxS p) < t.tb p s + 1 then s else t.maxS p := by
+    simp [RTree.updBK, upd, hm]
+  have e3 : (t.updBK m p s).km p = ((updN (t.tb p) s (t.tb p s + 1)
+      (if updN (t.tb p) s (t.tb p s + 1) (t.maxS p) < t.tb p s + 1 then s else t.maxS p) : Nat) : Rat) / ((t.nN p + 1 : Nat) : Rat) := by
+    simp [RTree.updBK, upd, hm]
+  refine ⟨e1, fun x => ?_, ?_, fun q hq => ?_⟩
+  · rw [e1, e2]; exact max_upd_aux (t.tb p) (t.maxS p) s hinv x
+  · rw [e3, e1, e2]
+  · simp [RTree.updBK, upd, hq]
+
+/-- **knowledge-measure update, entropy**: the term of the particle type just seen is replaced by the new `p log p`,
+    the running sum is corrected by the difference; nothing else changes -/
+theorem updBK_ent_spec (m : Mdl) (hm : m.entropy = true) (t : RTree) (p : Path) (s : Nat) :
+    (t.updBK m p s).tb p s = t.tb p s + 1 ∧
+    (t.updBK m p s).negEnt p s = m.plogp (t.tb p s + 1) (t.nN p + 1) ∧
+    (t.updBK m p s).km p = t.km p - t.negEnt p s + m.plogp (t.tb p s + 1) (t.nN p + 1) ∧
+    (∀ x, x ≠ s → (t.updBK m p s).negEnt p x = t.negEnt p x ∧ (t.updBK m p s).tb p x = t.tb p x) := by
+  refine ⟨by simp [RTree.updBK, upd, updN], by simp [RTree.updBK, upd, updN, hm], by simp [RTree.updBK, upd, hm], fun x hx => ?_⟩
+  simp [RTree.updBK, upd, updN, hm, hx]
+
+/-- **rPOMCP advance_keeps_subtree**: the tree the simulations of `sampleAction(a, o, horizon)` start from is exactly the
+    `(a, o)` child with everything below it (counts, values, particle maps, knowledge measures, bookkeeping), or a clean
+    fresh head node — the latter exactly when that child does not exist or holds no particle. -/
+theorem advance_keeps_subtree {t t0 : RTree} {a o : Nat} {parts : List Nat} {nA H iters H' iters' : Nat}
+    (hp : rprepare t (Op.adv a o parts nA H iters) = some (t0, H', iters')) :
+    (t.ex [(a, o)] = true ∧ ∀ q, t0.ex q = t.ex ((a, o) :: q) ∧ t0.nN q = t.nN ((a, o) :: q) ∧ t0.tb q = t.tb ((a, o) :: q) ∧
+        t0.km q = t.km ((a, o) :: q) ∧ t0.v q = t.v ((a, o) :: q) ∧ t0.actV q = t.actV ((a, o) :: q) ∧
+        t0.best q = t.best ((a, o) :: q) ∧ t0.aN q = t.aN ((a, o) :: q) ∧ t0.aV q = t.aV ((a, o) :: q) ∧
+        (t0.nA q = t.nA ((a, o) :: q) ∨ (q = [] ∧ t.nA [(a, o)] = 0 ∧ t0.nA [] = nA)))
+    ∨ t0 = RTree.fresh parts nA := by
+  simp only [rprepare] at hp
+  split at hp
+  · split at hp
+    · rename_i _ hc
+      simp only [Bool.and_eq_true] at hc
+      cases hal : (t.reroot (a, o)).alloc [] nA with
+      | none => simp [hal] at hp
+      | some t1 =>
+        simp [hal] at hp
+        obtain ⟨rfl, _, _⟩ := hp
+        left
+        refine ⟨hc.1, fun q => ?_⟩
+        unfold RTree.alloc at hal
+        split at hal
+        · rename_i hn
+          simp at hal; subst hal
+          exact ⟨rfl, rfl, rfl, rfl, rfl, rfl, rfl, rfl, rfl, Or.inl rfl⟩
+        · split at hal
+          · rename_i hn0
+            simp at hal; subst hal
+            refine ⟨rfl, rfl, rfl, rfl, rfl, rfl, rfl, rfl, rfl, ?_⟩
+            by_cases hq : q = []
+            · subst hq; right; exact ⟨rfl, hn0, by simp [upd]⟩
+            · left; simp only [upd, hq, if_false]; rfl
+          · simp at hal
+    · simp at hp
+      obtain ⟨rfl, _, _⟩ := hp
+      right; rfl
+  · simp at hp
 
 end R
 
